@@ -89,7 +89,9 @@ class Neg:
             base = ex.path(f, e["c"][0])
             if base is None:
                 return None
-            return ("t", "%s[]" % base)     # arrays are summarised (weak updates)
+            if v is not None and v >= 0:
+                return ("t", "%s[%d]" % (base, v))      # element at a constant index: its own key
+            return ("t", "%s[]" % base)     # variable index: the array summary (weak updates)
         if e["k"] == "mem":
             p = ex.path(f, i)
             return ("t", p) if p else None
@@ -116,7 +118,7 @@ class Neg:
         if r is None:
             return []
         name = f.exprs[r]["name"]
-        keys = [("t", name), ("t", "%s[]" % name)]
+        keys = [("t", name), ("t", "%s[]" % name)] + [k for k in self._all_keys if k[1].startswith(name + "[")]
         c = f._cache.get("neg_ptr_fields")
         if c is None:
             c = {}
@@ -182,7 +184,17 @@ class Neg:
         if k in ("ref", "idx", "mem"):
             key = self.key_of(i)
             if key is not None:
-                return frozenset((s, p) for s, p in st.get(key, frozenset()) if s not in st["ok"])
+                t = st.get(key, frozenset())
+                if key[1].endswith("[]"):
+                    # a[i] with unknown i may be any element
+                    pre = key[1][:-1]
+                    for k2, t2 in st.items():
+                        if k2 != "ok" and k2 != key and k2[1].startswith(pre):
+                            t = t | t2
+                elif key[1].endswith("]"):
+                    # a[c] may also have been written through a variable index
+                    t = t | st.get(("t", key[1][:key[1].rindex("[")] + "[]"), frozenset())
+                return frozenset((s, p) for s, p in t if s not in st["ok"])
             return frozenset()
         if k == "cast":
             t = self.taint(st, e["c"][0], depth + 1)
